@@ -83,4 +83,8 @@ class OperatorResolver(metaclass=abc.ABCMeta):
 
     # The operator table cache may not be pickleable, so let's drop it.
     def __getstate__(self) -> dict:
-        return {}
+        return {
+            key: value
+            for key, value in self.__dict__.items()
+            if key != "operator_table"
+        }
